@@ -151,16 +151,14 @@ def _check_one(sn, net, spec, alphas, winners, T, x, snapshot, seed_line):
     # layers outside choice blocks and the winners' layers: same objects, same parameters
     kept = dict(e.named_modules())
     for name, m in net.named_modules():
-        if name == '' or '.sn_' in name or name.startswith('blk') and '.' not in name:
-            continue
-        if name in kept and any(True for _ in m.children()):
-            continue                      # containers are re-created by fx
+        if not name or 'sn_combiner' in name or any(True for _ in m.children()):
+            continue                      # root, combiners (must be gone), containers (re-created by fx)
+        # a leaf layer of the user's network: outside choice blocks it must be there; wherever it is
+        # kept (outside blocks, winners' layers) it must be the very same object
+        if 'sn_branches' not in name and name not in kept:
+            rec['fail'].append(('outside-layer-missing', 'layer %s outside choice blocks is missing' % name))
         if name in kept and kept[name] is not m:
             rec['fail'].append(('layer-replaced', 'layer %s of the exported network is not the user\'s object' % name))
-    for name, m in net.named_modules():
-        outside = 'sn_branches' not in name and 'sn_combiner' not in name and not any(True for _ in m.children())
-        if name and outside and not name.startswith('blk') and name not in kept:
-            rec['fail'].append(('outside-layer-missing', 'layer %s outside choice blocks is missing' % name))
     for k, v in net.state_dict().items():
         if 'sn_combiner' in k:
             continue
@@ -346,6 +344,9 @@ def run(chk):
             key = _finding_key(spec, rec['winners'], kind)
             if key not in first_fail:
                 first_fail[key] = (case, kind, text)
+    nbit = chk.hist.get('output-bit-identical', 0)
+    chk.observe('export().eval()(x) was bit-identical (torch.equal) to the hard-selection SuperNet in %d of %d '
+                'cases (demanded: allclose 1e-5; the combiner adds exact zeros)' % (nbit, len(flat)))
     chk.extra['exhaustive_networks'] = sum(1 for it in items if it['exhaustive'])
     chk.extra['sampled_networks'] = sum(1 for it in items if not it['exhaustive'])
     broken = bool(chk.proof_broken or chk.corr_disagreements)
